@@ -94,7 +94,12 @@ func H18_draw() {
 	} else {
 		w, h = 2, 2
 	}
-	s, ss := h18New("UTF-8", w, h)
+	ascii := vsymChoice("charset", 2) == 1
+	charset := "UTF-8"
+	if ascii {
+		charset = "US-ASCII"
+	}
+	s, ss := h18New(charset, w, h)
 	sp := &h08Spec{}
 	sp.Resize(w, h)
 	var scrStyle Style
@@ -114,7 +119,10 @@ func H18_draw() {
 	case 0:
 		x, y := vsymInt("x"), vsymInt("y")
 		vsymAssume(vsymAnd(vsymAnd(x >= -1, x <= w), vsymAnd(y >= -1, y <= h)))
-		r := h01Rune("r", 4)
+		r := h01Rune("r", 5)
+		if r == 'x' {
+			r = 0xe9 // class 4: Latin-1 letter, not representable in US-ASCII, no fallback registered
+		}
 		var comb []rune
 		if vsymChoice("comb", 2) == 1 {
 			comb = []rune{0x0301}
@@ -163,9 +171,17 @@ func H18_draw() {
 			if !(styleOpen && sp.cells[y*w+x].style == StyleDefault) {
 				vsymAssert(got.Style == est, "physical cell holds the resolved style last set")
 			}
-			// Bytes: the UTF-8 encoding of the runes
+			// Bytes: the encoding of the runes in the simulation's charset, under the real screen's fallback rules
 			var eb []byte
-			for _, r := range er {
+			for k, r := range er {
+				if ascii && r >= 0x80 {
+					if fb, ok := RuneFallbacks[r]; ok {
+						eb = append(eb, fb...)
+					} else if k == 0 {
+						eb = append(eb, '?')
+					}
+					continue
+				}
 				var tmp [4]byte
 				n := utf8.EncodeRune(tmp[:], r)
 				eb = append(eb, tmp[:n]...)
